@@ -119,13 +119,41 @@ def compdb():
 
 
 _hash_memo = {}
+_overlay = {}      # /repo path -> replacement file (self-test mutants are analysed through a clang VFS overlay)
+_overlay_sig = ''
+
+
+def set_overlay(mapping):
+    """analyse `mapping[path]` in place of /repo file `path` (nothing under /repo is touched)"""
+    global _overlay, _overlay_sig
+    _hash_memo.clear()
+    _overlay = {}
+    h = hashlib.sha256(b'v3')
+    odir = os.path.join(CACHE, 'overlay')
+    for k in sorted(mapping or {}):
+        data = open(mapping[k], 'rb').read()
+        h.update(k.encode())
+        h.update(data)
+        # keep a content-addressed copy so that cached overlay descriptions never point to a vanished file
+        os.makedirs(odir, exist_ok=True)
+        dst = os.path.join(odir, hashlib.sha256(data).hexdigest()[:20] + '_' + os.path.basename(k))
+        if not os.path.exists(dst):
+            with open(dst + '.%d' % os.getpid(), 'wb') as f:
+                f.write(data)
+            os.replace(dst + '.%d' % os.getpid(), dst)
+        _overlay[k] = dst
+    _overlay_sig = h.hexdigest()[:16] if _overlay else ''
+
+
+def real_path(p):
+    return _overlay.get(p, p)
 
 
 def file_hash(p):
     h = _hash_memo.get(p)
     if h is None:
         try:
-            with open(p, 'rb') as f:
+            with open(real_path(p), 'rb') as f:
                 h = hashlib.sha256(f.read()).hexdigest()
         except OSError:
             h = 'missing'
@@ -138,7 +166,7 @@ def _sgx_stamp():
 
 
 def cache_paths(unit, args):
-    k = hashlib.sha256((unit + '\0' + '\0'.join(args) + '\0' + _sgx_stamp()).encode()).hexdigest()[:24]
+    k = hashlib.sha256((unit + '\0' + '\0'.join(args) + '\0' + _sgx_stamp() + '\0' + _overlay_sig).encode()).hexdigest()[:24]
     base = os.path.join(CACHE, k)
     return base + '.ir', base + '.deps'
 
@@ -162,7 +190,18 @@ def extract(unit, args):
     irp, depp = cache_paths(unit, args)
     os.makedirs(CACHE, exist_ok=True)
     tmp = irp + '.%d.tmp' % os.getpid()
-    cmd = [SGX, tmp, '--root=' + REPO + '/', '--'] + args + ['-w', '-resource-dir', resource_dir(), unit]
+    ovl = []
+    if _overlay:
+        yml = os.path.join(CACHE, 'overlay_%s.yaml' % _overlay_sig)
+        if not os.path.exists(yml):
+            roots = [{'name': k, 'type': 'file', 'external-contents': v} for k, v in sorted(_overlay.items())]
+            import threading
+            tmpy = yml + '.%d.%d' % (os.getpid(), threading.get_ident())
+            with open(tmpy, 'w') as f:
+                json.dump({'version': 0, 'case-sensitive': 'true', 'use-external-names': False, 'roots': roots}, f)
+            os.replace(tmpy, yml)
+        ovl = ['--overlay=' + yml]
+    cmd = [SGX, tmp, '--root=' + REPO + '/'] + ovl + ['--'] + args + ['-w', '-resource-dir', resource_dir(), unit]
     r = subprocess.run(cmd, capture_output=True, text=True)
     if r.returncode != 0 or not os.path.exists(tmp):
         return False, (r.stderr or r.stdout)[-3000:]
@@ -225,7 +264,7 @@ def units_mentioning(words, under=None):
         if under and not any(u.startswith(REPO + '/' + p) for p in under):
             continue
         try:
-            txt = open(u, errors='replace').read()
+            txt = open(real_path(u), errors='replace').read()
         except OSError:
             continue
         if any(w in txt for w in words):
@@ -249,6 +288,7 @@ class Program:
         self.classes = {}   # qname -> record
         self.enums = {}
         self.consts = {}
+        self.globals = {}   # qualified name -> global variable record with its initialiser tree
         self.units = []
         self.nrecords = 0
         self._sub = None
@@ -292,6 +332,11 @@ class Program:
             elif tag == 'E':
                 if key not in self.enums:
                     self.enums[key] = json.loads(js)
+            elif tag == 'G':
+                if key not in self.globals:
+                    g = Fn(json.loads(js))
+                    g.types = types
+                    self.globals[key] = g
             elif tag == 'K':
                 if key not in self.consts:
                     c = json.loads(js)
